@@ -27,7 +27,7 @@ RULE = (
     "deleted/unknown field actually present on the wire."
 )
 ASSUMPTIONS = ["older schemas are built with betterproto's public field API (dataclass_field), not by the plugin",
-               "groups (wire types 3/4) are exercised under C17"]
+               "malformed groups are exercised under C17; well-formed unknown groups (nested up to 90 levels) are unknown fields here"]
 
 _older_cache = {}
 
@@ -297,7 +297,7 @@ def targets(ctx):
 
     # ------------------------------------------------------------------ (b) unknown records
     @collecting
-    def unk_clauses(out, name, tree, unknown, positions, entry="parse", unknown2=()):
+    def unk_clauses(out, name, tree, unknown, positions, entry="parse", unknown2=(), copy_between=None):
         cls = c.bp(name)
         mi = schema.msg(f"ks.{name}")
         want = norm(schema, mi, tree)
@@ -308,14 +308,24 @@ def targets(ctx):
         r = c.ref.cls(mi.full_name).FromString(data)
         if norm(schema, mi, snap_ref(schema, mi, r)) != want:
             raise RuntimeError("reference disagrees on an interleaved encoding (harness)")
+        groups = [x.raw for x in urecs if x.wt == 3] + [cm.unknown_to_record(u).raw for u in unknown2 if u["wt"] == 3]
         m = guard("parse", decode_via, cls(), data, entry)
         unknown_numbers = {u["n"] for u in unknown} | {u["n"] for u in unknown2}
         inserted_in_order = [r.raw for r in wire.parse_records(data) if r.number in unknown_numbers]
         if unknown2:
             # a second payload (unknown records only) decoded into the SAME instance: everything received stays
             more = [cm.unknown_to_record(u).raw for u in unknown2]
+            twin = None
+            if copy_between:
+                # a copy taken BEFORE the second payload arrives must keep re-emitting what it held at that time
+                import copy as _copy
+
+                twin = guard("copy_between", _copy.copy if copy_between == "shallow" else _copy.deepcopy, m)
+                twin_bytes = guard("bytes_twin", bytes, twin)
             guard("parse_second", decode_via, m, b"".join(more), "load" if entry.startswith("load") else "parse")
-            inserted_in_order = inserted_in_order + more
+            if twin is not None and guard("bytes_twin_after", bytes, twin) != twin_bytes:
+                out.append(("copy_sees_later_unknown_fields", f"{copy_between} copy before={twin_bytes.hex()[:160]} after={bytes(twin).hex()[:160]}"))
+            inserted_in_order = inserted_in_order + [r.raw for r in wire.parse_records(b"".join(more)) if r.number in unknown_numbers]
         got = norm(schema, mi, guard("snapshot", snap_bp, schema, mi, m))
         if got != want:
             out.append(("unknown_disturbs_known", f"got {got!r:.300} want {want!r:.300}"))
@@ -326,6 +336,9 @@ def targets(ctx):
                 out.append(("unknown_not_reemitted", f"in={[x.hex() for x in inserted_in_order]!r:.240} out={[x.hex() for x in emitted]!r:.240}"))
         except wire.WireError as e:
             out.append(("output_malformed", str(e)))
+        for g in groups:
+            if g not in b2:
+                out.append(("unknown_group_not_reemitted_as_a_whole", f"group={g.hex()[:120]} out={b2.hex()[:240]}"))
         if guard("len", len, m) != len(b2):
             out.append(("len_vs_bytes_with_unknown", f"len={len(m)} bytes={len(b2)}"))
         m3 = guard("reparse", cls().parse, b2)
@@ -342,17 +355,19 @@ def targets(ctx):
         name, tree, unknown, pos = case["msg"], case["tree"], case["unknown"], case["pos"]
         entry = case.get("entry", "parse")
         unknown2 = case.get("unknown2", [])
-        found = unk_clauses(name, tree, unknown, pos, entry, unknown2)
+        found = unk_clauses(name, tree, unknown, pos, entry, unknown2, case.get("copy_between"))
         wts = sorted({u["wt"] for u in unknown})
         fails = []
         for cl, d in found:
             single = [u for i, u in enumerate(unknown) if any(c2 == cl for c2, _ in unk_clauses(name, tree, [u], [pos[i]], entry))]
-            where = "+".join(sorted({f"wt{u['wt']}" + ("_bigtag" if u["n"] >= 2**21 else "") + ("_padded" if any(u.get(k) for k in ("tp", "lp", "vp")) else "") for u in single})) or ("second_payload" if unknown2 else "combo")
+            where = "+".join(sorted({f"wt{u['wt']}" + ("_deep" if u.get("depth", 0) >= 10 else "") + ("_bigtag" if u["n"] >= 2**21 else "") + ("_padded" if any(u.get(k) for k in ("tp", "lp", "vp")) else "") for u in single})) or ("second_payload" if unknown2 else "combo")
             fails.append(Failure(cl, f"unk|{cl}|{where}|{entry}", f"case={case!r} :: {d}"))
         n_known = len(tree)
-        labs = [f"msg:{name}"] + [f"wt:{w}" for w in wts] + [f"n_unknown:{len(unknown)}"]
+        labs = [f"msg:{name}"] + [f"wt:{w}" for w in wts] + [f"n_unknown:{len(unknown)}"] + [f"group_depth:{u['depth']}" for u in unknown if u["wt"] == 3]
         if unknown2:
             labs.append("second_payload_into_same_instance")
+        if case.get("copy_between"):
+            labs.append("copy_taken_between_payloads:" + case["copy_between"])
         if any(u.get(k) for u in unknown for k in ("tp", "lp", "vp")):
             labs.append("non_minimal_varint_in_unknown_record")
         for p in pos:
@@ -371,6 +386,7 @@ def targets(ctx):
         case["entry"] = draw(st.sampled_from(ENTRIES))
         if draw(st.integers(0, 3)) == 0:
             case["unknown2"] = draw(st.lists(cm.unknown_record_strategy(cm.unused_numbers(mi)), min_size=1, max_size=2))
+            case["copy_between"] = draw(st.sampled_from([None, "shallow", "shallow", "deep"]))
         return case
 
     return [
